@@ -4,8 +4,8 @@ import os
 
 import vlib
 
-INV = ["OneCause", "RightCause", "Prompt", "Released", "NoLeak", "IdleTiming", "NoIdleWhileKeptAlive"]
-CONST = {"Slack": "600"}
+INV = ["OneCause", "RightCause", "LateCallsFail", "Prompt", "Released", "NoLeak", "IdleTiming", "NoIdleWhileKeptAlive"]
+CONST = {"Slack": "600", "MinRemote": "5000"}
 
 
 def mk(k, rng, idle=None):
@@ -16,10 +16,10 @@ def mk(k, rng, idle=None):
         cfg["idle"] = 1500
     elif cause == "idle_writer":
         cfg["cause"], cfg["writer"] = "idle", True
-        cfg["idle"] = idle or rng.choice([1000, 2000, 5000])
+        cfg["idle"] = idle or rng.choice([1000, 2000, 5000, 7000])
     elif cause == "idle":
         cfg["cause"] = "idle"
-        cfg["idle"] = idle or rng.choice([1000, 2000, 5000])
+        cfg["idle"] = idle or rng.choice([1000, 2000, 5000, 7000])
     elif cause == "keepalive":
         cfg["cause"] = "keepalive"
         cfg["idle"] = idle or rng.choice([1000, 2000])
@@ -28,6 +28,14 @@ def mk(k, rng, idle=None):
         cfg["cause"] = cause
         if rng.random() < 0.3:
             cfg["idle"] = 3000
+    # the two sides configured differently; a fingerprint client that advertises no max_idle_timeout at all
+    if cfg["idle"] and cause != "keepalive":
+        cfg["smul"], cfg["cmul"] = rng.choice([(1, 1), (1, 1), (2, 1), (3, 1), (1, 2), (1, 3)])
+        if k["client"] != "plain":
+            cfg["cmul"] = 1    # what a fingerprint advertises is the fingerprint's, its Config value stays the smaller one (C12 covers the difference)
+    if k["client"] != "plain":
+        cfg["omitidle"] = rng.random() < 0.4
+    cfg["backlog"] = bool(k.get("backlog"))
     ops = [{"side": "c", "call": x} for x in sorted(k["ccalls"])] + [{"side": "s", "call": x} for x in sorted(k["scalls"])]
     return {"group": "est", "cfg": cfg, "ops": ops}
 
@@ -60,6 +68,9 @@ def run(replay=None):
         "one connection per case between a real client (plain / fingerprint) and the in-tree server over simnet in a synctest bubble; calls are blocked by construction "
         "(peer allows one stream, never reads, never writes, sends no datagram)",
         "promptly = within 600 ms of virtual time after the cause (RTT 10 ms); the idle timeout may fire up to 600 ms after it is due",
+        "the idle period in force on a side = min(its Config.MaxIdleTimeout, the peer's advertised max_idle_timeout), an omitted parameter imposing no limit (RFC 9000 10.1); "
+        "the sides are configured with different values and fingerprint clients advertise the fingerprint's value or, with SuppressTransportParameters, none",
+        "a call made after the end (open, accept, datagram send/receive) must fail with the cause - success counts as a different cause",
         "an ACK-only datagram (< 60 bytes) does not count as data sent for the idle timer's restart",
         "whether the peer learns the cause is required only when the closing exchange is not lost; a stateless reset / transport shutdown leaves the peer to its idle timeout",
         "goroutine release: calls still blocked 3 s after the end are counted; the bubble must end (a leaked goroutine fails the run as a whole)",
@@ -78,6 +89,9 @@ def run(replay=None):
             for cause in ("idle", "idle_writer", "keepalive"):
                 for client in ("plain", "chrome115"):
                     cases.append(mk({"cause": cause, "side": "c", "client": client, "ccalls": ["read", "accept", "accept2"], "scalls": ["accept", "recvdgram"]}, c.rng, idle))
+        # datagrams left unread at the end (known finding C17-recvdatagram-after-close): a few dedicated cases
+        for cause in ("close", "idle", "transport_close"):
+            cases.append(mk({"cause": cause, "side": "c", "client": "plain", "ccalls": ["read"], "scalls": ["accept"], "backlog": True}, c.rng))
         # causes during the handshake
         for client in ("plain", "chrome115"):
             for at in (3, 8, 12, 30, 200):
@@ -87,13 +101,17 @@ def run(replay=None):
         c.parts.append({"step": "generate", "what": "idle / keep-alive periods from a range; causes during the handshake (dial cancellation at several points, handshake timeout, ALPN mismatch)", "cases": len(cases) - len(knobs), "exhaustive": False})
     c.samples = vlib.sample_cases(cases, c.rng, 3)
     groups = c.go_run(".", "TestVerifC17", cases, vlib.pkg_overlay(".", "root"), timeout=2400)
-    viols = c.validate_many(c.spec("Teardown_Trace.tla"), [{"label": g, "files": f, "constants": CONST, "invariants": INV} for g, f in groups.items()], timeout=2400, max_iter=6)
+    viols = c.validate_many(c.spec("Teardown_Trace.tla"), [{"label": g, "files": f, "constants": CONST, "invariants": INV} for g, f in groups.items()], timeout=2400, max_iter=12)
     if not replay:
         c.require_events(["Blocked", "Cause", "Returned", "Ctx", "Quiesced", "Delivered", "Sent"])
         c.negative_control(c.spec("Teardown_Trace.tla"), groups["est"], CONST, INV, mutate, label="est")
     for v in viols:
         st = (cases[v["case"]] if 0 <= v["case"] < len(cases) else {}).get("cfg", {})
         v["sig"] = {"inv": v["inv"], "cause": st.get("cause")}
+        ln = v["trace"][v["line_in_case"]] if v.get("trace") and v["line_in_case"] < len(v["trace"]) else ""
+        if '"class":"ok:' in ln:
+            v["sig"]["late_ok"] = ln.split('"class":"ok:')[1].split('"')[0]
+            v["sig"]["backlog"] = bool(st.get("backlog"))
     c.add_violations(viols, cases, describe)
     c.finish(rule="every blocked call, its return, the context cancellation, the cause, packet deliveries and data sends of one real connection are steps of Teardown; "
                   "Quiesced reports calls still blocked and routing entries left")
